@@ -80,6 +80,15 @@ func parseFloatArg(s string) (float64, bool, bool) {
 
 func lower(s string) string { return strings.ToLower(s) }
 
+// nonFinite: a spelling of an infinity or of not-a-number ("inf", "-Infinity", "NaN", ...). As an
+// increment it is refused under every reading - it is not a float, or the result would not be finite -
+// so nothing may change.
+func nonFinite(s string) bool {
+	t := strings.ToLower(s)
+	t = strings.TrimPrefix(strings.TrimPrefix(t, "+"), "-")
+	return t == "inf" || t == "infinity" || t == "nan"
+}
+
 func init() {
 	reg("ping", func(db *DB, a []string) Reply {
 		switch len(a) {
@@ -512,6 +521,12 @@ func init() {
 		k := a[1]
 		inc, ok, amb := parseFloatArg(a[2])
 		v := db.get(k)
+		if nonFinite(a[2]) {
+			if v != nil && v.Kind != KString {
+				return AnyErr()
+			}
+			return Err()
+		}
 		if amb {
 			return Unspecified("float spelling")
 		}
